@@ -1,7 +1,7 @@
 (* Property C16 -- suffix and base.  Statements only. *)
 From Coq Require Import List NArith Bool Arith.
 Import ListNotations.
-Require Import V.Regex V.Parse V.PathSpec V.Splice V.Setters V.Iter V.PathQ V.PathMut V.Reference V.Cmp V.C16Proofs.
+Require Import V.Regex V.Parse V.ParseProofs V.PathSpec V.Splice V.Setters V.SetPath V.Iter V.PathQ V.Push V.PathMut V.Reference V.Cmp V.Rfc V.C16Proofs V.C16Proofs2 V.DirProofs.
 Local Open Scope nat_scope.
 
 (* a suffix is produced only when the prefix's (normalised) segments are a leading part of the value's,
@@ -19,6 +19,20 @@ Print Assumptions C16_none_only_for_non_prefixes.
 Theorem C16_base_is_prefix : forall buf, exists rest, buf = ref_base buf ++ rest.
 Proof. exact base_is_prefix. Qed.
 Print Assumptions C16_base_is_prefix.
+
+(* exactness and totality: when the prefix's segments are matched (segment-wise equal after percent-decoding) by the
+   first |ys| segments of the value, the loop returns -- no panic, whatever the remaining segments are -- a path
+   whose segments are exactly the remaining ones (up to "." shield segments: the push law of C10) *)
+Theorem C16_suffix_exact : forall ys xs1 rest buf, Forall2 seg_eq xs1 ys -> Forall noslash rest ->
+  exists r, suffix_loop buf (xs1 ++ rest) ys = Some (Some r) /\ nodot (segs r) = nodot (segs buf ++ rest).
+Proof. exact suffix_exact. Qed.
+Print Assumptions C16_suffix_exact.
+
+(* base(): for every well-formed reference, everything before the path followed by the path's text up to and
+   including its last '/' (Rfc.dir_of: "" when the path has no '/'); the query and fragment are dropped *)
+Theorem C16_base_spec : forall p, wf_parts p -> ref_base (compose p) = pre_of p ++ dir_of (p_path p).
+Proof. exact ref_base_spec. Qed.
+Print Assumptions C16_base_spec.
 
 Example C16_example :   (* /a/b/c over /%61/x/..  ->  b/c ;  base(http://a/b/c?q#f) = http://a/b/ *)
   path_suffix [47;97;47;98;47;99]%N [47;37;54;49;47;120;47;46;46]%N = Some (Some [98;47;99]%N)
